@@ -119,6 +119,10 @@ pub struct Profile {
     /// percentage of modules that get a "tower": a struct whose only field flattens a struct
     /// made only of two or three flattened enums / structs
     pub flatten_tower: u32,
+    /// the feature-gated third-party types (chrono, uuid, url, indexmap, heapless, bytes, ..)
+    pub ext_types: bool,
+    /// generate `bson::oid::ObjectId` although its binding is a listed finding
+    pub known_objectid: bool,
 }
 
 impl Profile {
@@ -162,6 +166,8 @@ impl Profile {
             twin_names: 0,
             doc_col0: 20,
             flatten_tower: 0,
+            ext_types: false,
+            known_objectid: false,
         }
     }
 }
@@ -472,8 +478,41 @@ impl Cx<'_> {
         TyExpr::Prim(*t.pick(&["i32", "u8", "String", "char", "bool", "u64", "i64"]))
     }
 
+    /// a feature-gated third-party type (C12, `ext` slot configuration)
+    fn gen_ext(&mut self, t: &mut Tape, params: &[Param], depth: u32) -> TyExpr {
+        match t.weighted(&[25, 30, if self.p.known_objectid { 6 } else { 0 }, 8, 8, 8, 8, 4]) {
+            0 => TyExpr::Lib(
+                *t.pick(&[
+                    "chrono::NaiveDateTime", "chrono::NaiveDate", "chrono::NaiveTime", "chrono::Month", "chrono::Weekday",
+                    "chrono::DateTime<chrono::Utc>", "chrono::DateTime<chrono::FixedOffset>",
+                ]),
+                vec![],
+            ),
+            1 => TyExpr::Lib(
+                *t.pick(&[
+                    "bigdecimal::BigDecimal", "uuid::Uuid", "url::Url", "semver::Version", "smol_str::SmolStr", "ordered_float::OrderedFloat<f64>",
+                    "ordered_float::OrderedFloat<f32>", "bson::Uuid", "bytes::Bytes", "bytes::BytesMut", "serde_json::Number",
+                ]),
+                vec![],
+            ),
+            2 => TyExpr::Lib("bson::oid::ObjectId", vec![]),
+            3 => TyExpr::Lib("indexmap::IndexSet", vec![self.gen_ord_hash(t)]),
+            4 => {
+                let k = self.gen_key(t);
+                let v = self.gen_ty_inner(t, params, depth + 1, depth >= 1);
+                TyExpr::Lib("indexmap::IndexMap", vec![k, v])
+            }
+            5 => TyExpr::Lib("heapless::Vec", vec![self.gen_ty_inner(t, params, depth + 1, depth >= 1)]),
+            6 => TyExpr::Lib("serde_json::Value", vec![]),
+            _ => TyExpr::Lib("serde_json::Map<String, serde_json::Value>", vec![]),
+        }
+    }
+
     /// a library type expression (C12), arguments drawn from the ordinary generator
     fn gen_lib(&mut self, t: &mut Tape, params: &[Param], depth: u32) -> TyExpr {
+        if self.p.ext_types && t.pct(40) {
+            return self.gen_ext(t, params, depth);
+        }
         let arg = |cx: &mut Self, t: &mut Tape| {
             if depth < 2 && t.pct(40) {
                 cx.gen_lib(t, params, depth + 1)
